@@ -156,7 +156,7 @@ def run(ctx, ck) -> None:
         if s.taints:
             for t in s.taints:
                 if t.definite:
-                    ck.bad('J3', t.node, f'{s.cls.name}.mv is not trace-safe: {t.why}', instance=f'{s.cls.name} taint', semantic=True)  # a flow fact (a traced field reaches the sink through resolved calls), not a written form
+                    ck.bad('J3', t.node, f'{s.cls.name}.mv is not trace-safe: {t.why}', instance=f'{s.cls.name} taint', semantic='NumPy forces a traced value' in t.why and 'Par' in t.why)  # a field (Par) reaching a NumPy call through resolved calls is a flow fact, not a written form; what depends on inferred staticness (shapes, loop bounds) is not
                 else:
                     ck.incomplete('J3', t.node, f'{s.cls.name}.mv: cannot decide trace safety: {t.why}', instance=f'{s.cls.name} taint')
         else:
